@@ -154,6 +154,9 @@ var messageCheck = &core.Check{Name: "c16/message", Quick: 3000, Thorough: 25000
 		c.NonTrivial(want)
 	}
 	c.Class([]string{"internal", "external-in", "external-out"}[kind])
+	if err := reuseVariable(c, m, cell, &plain); err != nil {
+		return err
+	}
 	if kind != 1 {
 		hn := plain.Hash(true)
 		if !bytes.Equal(hn[:], want) {
@@ -234,6 +237,49 @@ var messageCheck = &core.Check{Name: "c16/message", Quick: 3000, Thorough: 25000
 	}
 	return nil
 }}
+
+// reuseVariable: one Message variable is used for two decodes and a copy of the first result is kept. The copy
+// must go on describing the first message (both hashes as a fresh decode of the first cell reports them), the
+// variable must describe the second one.
+func reuseVariable(c *core.Ctx, m tlbref.Message, cell *ref.RCell, fresh *tlb.Message) error {
+	o := m
+	o.Info.Dest.Hash[c.Choose("o.flipbyte", 32)] ^= 1 << uint(c.Intn("o.flipbit", 8))
+	o.Info.Src.Hash[c.Choose("o.srcbyte", 32)] ^= 0x80
+	o.Body = ref.NewRCell(append(m.Body.Bits().Clone(), false), false, m.Body.Refs...)
+	oc, fits := msgCell(o)
+	if !fits {
+		return nil
+	}
+	op, _, _, err := decodeAllWays(oc, sharedDecoder)
+	if err != nil {
+		return err
+	}
+	decodeInto := func(dst *tlb.Message, rc *ref.RCell) error {
+		cells, e := boc.DeserializeBoc(ref.SerializeBOC([]*ref.RCell{rc}, ref.BocVariant{}))
+		if e != nil {
+			return fmt.Errorf("HARNESS: %v", e)
+		}
+		return tlb.Unmarshal(cells[0], dst)
+	}
+	var slot tlb.Message
+	if err := decodeInto(&slot, cell); err != nil {
+		return fmt.Errorf("decoding a schema-conforming message failed: %v", err)
+	}
+	first := slot // value copy kept by the caller
+	if err := decodeInto(&slot, oc); err != nil {
+		return fmt.Errorf("decoding a schema-conforming message into a used variable failed: %v", err)
+	}
+	c.Class("message variable reused, copy of the first result kept")
+	if slot.Hash(false) != op.Hash(false) || slot.Hash(true) != op.Hash(true) {
+		return fmt.Errorf("a Message variable used for a second decode reports hashes %x / %x (normalised); a fresh decode of the same cell reports %x / %x",
+			slot.Hash(false), slot.Hash(true), op.Hash(false), op.Hash(true))
+	}
+	if first.Hash(false) != fresh.Hash(false) || first.Hash(true) != fresh.Hash(true) {
+		return fmt.Errorf("the copy of a decoded Message reports hashes %x / %x (normalised) after its variable was used for another decode; a fresh decode of its cell reports %x / %x",
+			first.Hash(false), first.Hash(true), fresh.Hash(false), fresh.Hash(true))
+	}
+	return nil
+}
 
 // synthetic transactions: values from the reflective generator, encoded by the library, decoded again:
 // the reported hash must be the hash of exactly that cell, and SourceBoc must parse back to it
